@@ -330,7 +330,7 @@ func showPFBObs(obs []pfbObs) string {
 		if i > 0 {
 			s += "; "
 		}
-		if i >= 12 {
+		if i >= 6 {
 			s += fmt.Sprintf("... (%d reads)", len(obs))
 			break
 		}
@@ -537,12 +537,15 @@ func replayPFBOne(part *pfbPart, path string, line, num int, raw []byte, timer *
 	inp, D := pfbBytes(v.Inp), pfbBytes(v.D)
 	stim := func() string {
 		return fmt.Sprintf("input bytes %s; buffer sizes %s; underlying reader: chunks %v cyclic, EOF with last bytes=%v",
-			clipInts(v.Inp, 80), clipInts(v.Caps, 40), v.Chunks, v.EOFwd)
+			clipInts(v.Inp, 48), clipInts(v.Caps, 16), v.Chunks, v.EOFwd)
 	}
 	exp := func() string {
 		return fmt.Sprintf("content %q (%d bytes), ending in %s", clip(D, 60), len(D), v.Term)
 	}
-	run := drivePFBGuarded(inp, v.Caps, v.Chunks, v.EOFwd, 4, 3*time.Second, timer)
+	// when the vector's buffer sizes are used up without a terminal result (possible only where the contract
+	// does not demand that buffers are filled) reading goes on until the decoder says how the stream ends
+	extra := len(D) + 8
+	run := drivePFBGuarded(inp, v.Caps, v.Chunks, v.EOFwd, extra, 3*time.Second, timer)
 	if run.hang {
 		part.hangs++
 		hangsAll.Add(1)
@@ -557,7 +560,7 @@ func replayPFBOne(part *pfbPart, path string, line, num int, raw []byte, timer *
 	bad := sig != ""
 	if bad {
 		// a disagreement counts when the same stimulus alone gives it again
-		again := drivePFBGuarded(inp, v.Caps, v.Chunks, v.EOFwd, 4, 3*time.Second, timer)
+		again := drivePFBGuarded(inp, v.Caps, v.Chunks, v.EOFwd, extra, 3*time.Second, timer)
 		if sig2, _, _ := judgePFBRun(D, v.Term, again.obs); again.hang || again.panic != "" || sig2 != sig {
 			sum.Unreproduced++
 		}
